@@ -82,7 +82,7 @@ def generate(rseed, tier, idx):
         mode = g.choice((0, 1, 1, 2, None))
         vr = g.random() < 0.35
         if g.random() < 0.08:
-            ops.append({"op": "chdir", "to": g.choice(("cwd", "cwd/sub", "cwd2", "cwd2/deep", "site [old]", "v[2]/x", "a b", "\u00fcn\u00ef c\u00f6d\u00e9", "100%", "{tmpl}", "it's"))})
+            ops.append({"op": "chdir", "to": g.choice(("cwd", "cwd/sub", "cwd2", "cwd2/deep", "site [old]", "v[2]/x", "a b", "\u00fcn\u00ef c\u00f6d\u00e9", "cafe\u0301 the\u0300me", "100%", "{tmpl}", "it's"))})
         if g.random() < 0.04:
             # from here on the report cannot be written in this directory: its name is taken by a directory
             ops.append({"op": "block_reports"})
